@@ -55,14 +55,27 @@ def fields_for(layout, v, seed):
     return (key, h)
 
 
+# kinds that can be DERIVED from a stronger capability of the same object (how == 2): the derived
+# object names the same file/directory as its parent but has a different capability string
+DERIVED_FROM = {"SSK-RO": "SSK", "MDMF-RO": "MDMF", "DIR2-RO": "DIR2", "DIR2-MDMF-RO": "DIR2-MDMF",
+                "SSK-Verifier": "SSK", "MDMF-Verifier": "MDMF", "DIR2-Verifier": "DIR2", "CHK-Verifier": "CHK"}
+
+
 def make_uri(kindname, fields, how):
     k = L.KINDS[kindname]
+    if how == 2:
+        parent = make_uri(DERIVED_FROM[kindname], fields_for_parent(kindname, fields), 0)
+        return parent.get_verify_cap() if kindname.endswith("Verifier") else parent.get_readonly()
     if how == 1:
         return uri.from_string(L.build(kindname, fields))
     if k.is_dir:
         return getattr(uri, k.cls)(make_uri(k.inner, fields, 0))
     cls = getattr(uri, k.cls)
     return cls(fields[0]) if k.layout == "lit" else cls(*fields)
+
+
+def fields_for_parent(kindname, fields):
+    return fields
 
 
 def filenode_for(cap):
@@ -105,7 +118,7 @@ def build(spec, seed):
     if wrap == "UnknownURI":
         return uri.from_string(b"x-tahoe-crazy://%d" % v)
     k = L.KINDS[kind]
-    cap = make_uri(kind, fields_for(k.layout, v, seed), how)
+    cap = make_uri(kind, fields_for(L.KINDS[DERIVED_FROM[kind]].layout if how == 2 else k.layout, v, seed), how)
     if wrap == "uri":
         return cap
     if wrap == "file":
@@ -143,6 +156,14 @@ def specs(nvalues):
             for name in ("SSK-Verifier", "MDMF-Verifier", "DIR2-Verifier"):
                 out.append({"wrap": "UnknownNode", "kind": name, "v": v, "how": how})
             out.append({"wrap": "UnknownURI", "kind": "-", "v": v, "how": how})
+        # derived forms: the read-cap / verify-cap OF the write-/read-cap object with the same value index
+        for name in DERIVED_FROM:
+            if name in L.KIND_NAMES:
+                out.append({"wrap": "uri", "kind": name, "v": v, "how": 2})
+            if name in FILE_NODE_KINDS:
+                out.append({"wrap": "file", "kind": name, "v": v, "how": 2})
+            if name in DIR_NODE_KINDS:
+                out.append({"wrap": "dir", "kind": name, "v": v, "how": 2})
     return out
 
 
